@@ -163,7 +163,19 @@ func runDecl(in *absint.Interp, fn *core.FuncRef, init func(st *absint.State, bi
 var (
 	litBinds   = map[*ast.FuncLit]map[types.Object]ast.Expr{}
 	litBindsMu sync.Mutex
+	// literals returned by factory calls, one node per call site
+	factoryLits = map[*ast.CallExpr]*ast.FuncLit{}
+	factoryMu   sync.Mutex
 )
+
+// litParamAlias: for a literal made by a factory, the root-side expression a factory parameter stands for ("" if
+// obj is not such a parameter) — `next` is `produce`, `maxRecords` is `maxRecords`.
+func litParamAlias(lit *ast.FuncLit, obj types.Object) string {
+	if e, ok := getLitBinds(lit)[obj]; ok {
+		return core.ExprStr(e)
+	}
+	return ""
+}
 
 func setLitBinds(lit *ast.FuncLit, b map[types.Object]ast.Expr) {
 	litBindsMu.Lock()
@@ -192,6 +204,21 @@ func runLit(in *absint.Interp, lit *ast.FuncLit, init func(st *absint.State, bin
 			return nil, false
 		}
 		defer func() { in.Hooks.Ident = prev }()
+		// a parameter bound to a variable (or another pure expression) of the calling function reads as that
+		prevFree := in.Hooks.FreeVar
+		in.Hooks.FreeVar = func(v *types.Var) ast.Expr {
+			if e, ok := binds[v]; ok {
+				switch x := core.Unparen(e).(type) {
+				case *ast.Ident, *ast.SelectorExpr, *ast.BasicLit:
+					return x.(ast.Expr)
+				}
+			}
+			if prevFree != nil {
+				return prevFree(v)
+			}
+			return nil
+		}
+		defer func() { in.Hooks.FreeVar = prevFree }()
 	}
 	return in.Run(lit.Type, nil, lit.Body, init, ref0)
 }
@@ -289,6 +316,42 @@ func funcValueLit(p *core.Program, fn *core.FuncRef, e ast.Expr) *ast.FuncLit {
 	e = core.Unparen(e)
 	if lit, ok := e.(*ast.FuncLit); ok {
 		return lit
+	}
+	// a factory of the same package: f(a, b) with `func f(x, y) F { …; return func(…) {…} }` — the returned literal,
+	// as its own node per call site, with f's parameters bound to the arguments (see runLit, litParamAlias)
+	if call, ok := e.(*ast.CallExpr); ok {
+		factoryMu.Lock()
+		cached, done := factoryLits[call]
+		factoryMu.Unlock()
+		if done {
+			return cached
+		}
+		var out *ast.FuncLit
+		if f, ok := core.Callee(fn.Info(), call).(*types.Func); ok && f.Pkg() != nil && f.Pkg().Path() == fn.Pkg.PkgPath && !call.Ellipsis.IsValid() {
+			helperInline(p, "", nil)
+			if fr := helperDecls[p][f]; fr != nil && fr.Decl.Body != nil && len(fr.Decl.Body.List) > 0 {
+				if rs, ok := fr.Decl.Body.List[len(fr.Decl.Body.List)-1].(*ast.ReturnStmt); ok && len(rs.Results) == 1 {
+					if inner, ok := core.Unparen(rs.Results[0]).(*ast.FuncLit); ok {
+						out = &ast.FuncLit{Type: inner.Type, Body: inner.Body}
+						binds := map[types.Object]ast.Expr{}
+						k := 0
+						for _, fl := range fr.Decl.Type.Params.List {
+							for _, nm := range fl.Names {
+								if o := fr.Info().Defs[nm]; o != nil && k < len(call.Args) {
+									binds[o] = call.Args[k]
+								}
+								k++
+							}
+						}
+						setLitBinds(out, binds)
+					}
+				}
+			}
+		}
+		factoryMu.Lock()
+		factoryLits[call] = out
+		factoryMu.Unlock()
+		return out
 	}
 	info := fn.Info()
 	var obj types.Object
